@@ -135,7 +135,7 @@ func genLogSites() string {
 						return true
 					}
 					name := calleeName(c)
-					if logMethods[name] || name == "Write" || name == "WriteAndReturn" {
+					if logMethods[name] {
 						return true // sinks, not propagation
 					}
 					for _, callee := range fns[name] {
@@ -180,8 +180,59 @@ func genLogSites() string {
 					return true
 				})
 			}
+			// flow-aware local taint: a local assigned from a credential is tainted; an assignment of
+			// something clean inside an `if` (the redaction idiom `if r { lm = redacted }`) marks it
+			// guarded from there on; an unconditional clean assignment clears it.
+			local := map[string]string{}
+			guarded := map[string]bool{}
+			var stack []ast.Node
+			inIf := func() bool {
+				for i := len(stack) - 1; i >= 1; i-- {
+					if blk, ok := stack[i].(*ast.BlockStmt); ok {
+						if ifs, ok := stack[i-1].(*ast.IfStmt); ok && (ifs.Body == blk) {
+							return true
+						}
+					}
+				}
+				return false
+			}
+			argTaint := func(e ast.Expr) string {
+				if t := taintOf(s.fset, e, params); t != "" {
+					return t
+				}
+				found := ""
+				ast.Inspect(e, func(n ast.Node) bool {
+					if id, ok := n.(*ast.Ident); ok {
+						if t, ok := local[id.Name]; ok && !guarded[id.Name] && found == "" {
+							found = t
+						}
+					}
+					return found == ""
+				})
+				return found
+			}
 			ast.Inspect(fd.Body, func(n ast.Node) bool {
+				if n == nil {
+					stack = stack[:len(stack)-1]
+					return true
+				}
+				stack = append(stack, n)
 				switch x := n.(type) {
+				case *ast.AssignStmt:
+					if len(x.Lhs) == 1 && len(x.Rhs) == 1 {
+						if id, ok := x.Lhs[0].(*ast.Ident); ok {
+							if t := argTaint(x.Rhs[0]); t != "" {
+								local[id.Name] = t
+								guarded[id.Name] = false
+							} else if _, was := local[id.Name]; was {
+								if inIf() {
+									guarded[id.Name] = true
+								} else {
+									delete(local, id.Name)
+								}
+							}
+						}
+					}
 				case *ast.CallExpr:
 					name := calleeName(x)
 					line := s.fset.Position(x.Pos()).Line
@@ -191,7 +242,7 @@ func genLogSites() string {
 						if strings.HasSuffix(recv, ".l") || strings.HasSuffix(recv, "Logger") || recv == "l" {
 							var t []string
 							for _, a := range x.Args {
-								if tt := taintOf(s.fset, a, params); tt != "" {
+								if tt := argTaint(a); tt != "" {
 									t = append(t, strconv.Quote(tt+":"+exprText(s.fset, a)))
 								}
 							}
@@ -200,9 +251,24 @@ func genLogSites() string {
 						}
 					}
 					if isSel && (name == "Write" || name == "WriteAndReturn") && len(x.Args) == 2 {
-						dt := taintOf(s.fset, x.Args[0], params)
+						dt := argTaint(x.Args[0])
 						red := exprText(s.fset, x.Args[1])
-						writes = append(writes, fmt.Sprintf("⟨%s, %d, %s, %s, %s⟩", strconv.Quote(s.rel), line, strconv.Quote(name), strconv.Quote(dt), strconv.Quote(red)))
+						kind := "expr"
+						switch {
+						case red == "true" || red == "false":
+							kind = red
+						default:
+							if id, ok := x.Args[1].(*ast.Ident); ok {
+								for _, fl := range fd.Type.Params.List {
+									for _, pn := range fl.Names {
+										if pn.Name == id.Name {
+											kind = "param"
+										}
+									}
+								}
+							}
+						}
+						writes = append(writes, fmt.Sprintf("⟨%s, %d, %s, %s, %s, %s⟩", strconv.Quote(s.rel), line, strconv.Quote(name), strconv.Quote(dt), strconv.Quote(red), strconv.Quote(kind)))
 					}
 				case *ast.CompositeLit:
 					isEvent := false
@@ -219,7 +285,7 @@ func genLogSites() string {
 							if kv, ok := el.(*ast.KeyValueExpr); ok {
 								switch exprText(s.fset, kv.Key) {
 								case "ChannelInput":
-									in = taintOf(s.fset, kv.Value, params)
+									in = argTaint(kv.Value)
 								case "HideInput":
 									hide = exprText(s.fset, kv.Value)
 								}
@@ -236,7 +302,7 @@ func genLogSites() string {
 	b.WriteString("-- GENERATED by go/cmd/extract from /repo's working tree; do not edit.\n")
 	b.WriteString("namespace Scrapli.Gen.Logs\n\n")
 	b.WriteString("/-- a logger call: file, line, method, credential-classified arguments (must be empty) -/\nstructure LogSite where\n  file : String\n  line : Nat\n  method : String\n  tainted : List String\n  deriving Repr, DecidableEq\n\n")
-	b.WriteString("/-- a channel Write / WriteAndReturn call: credential carried by the data (\"\" = none) and the redaction argument as written -/\nstructure WriteSite where\n  file : String\n  line : Nat\n  fn : String\n  dataTaint : String\n  redact : String\n  deriving Repr, DecidableEq\n\n")
+	b.WriteString("/-- a channel Write / WriteAndReturn call: credential carried by the data (\"\" = none) and the redaction argument as written; redactKind is true, false, param (the flag parameter of the enclosing function, forwarded) or expr -/\nstructure WriteSite where\n  file : String\n  line : Nat\n  fn : String\n  dataTaint : String\n  redact : String\n  redactKind : String\n  deriving Repr, DecidableEq\n\n")
 	b.WriteString("/-- a SendInteractiveEvent literal: credential carried by ChannelInput (\"\" = none) and its HideInput value -/\nstructure EventLit where\n  file : String\n  line : Nat\n  inputTaint : String\n  hide : String\n  deriving Repr, DecidableEq\n\n")
 	b.WriteString("def logSites : List LogSite := [\n  " + strings.Join(logs, ",\n  ") + "]\n\n")
 	b.WriteString("def writeSites : List WriteSite := [\n  " + strings.Join(writes, ",\n  ") + "]\n\n")
